@@ -122,7 +122,8 @@ def encode(spec, R):
             out = R.target_out(t)
             sym = os.path.join(R.privdir(t), os.path.basename(out) + '.symbols')
             decls.append([1, kind, R.n(out), R.n(sym)] + L([bsrc(t, s) for s in t['srcs']])
-                         + L([[tref(v)] for v in t['lw']]) + L([[tref(v)] for v in t['lwh']]) + L([dep(t, d) for d in t['deps']]))
+                         + L([[tref(v)] for v in t['lw']]) + L([[tref(v)] for v in t['lwh']])
+                         + L([[tref(v)] for v in t.get('objects', [])]) + L([dep(t, d) for d in t['deps']]))
         index[var] = len(index)
     return ','.join(str(x) for x in L(decls))
 
